@@ -417,6 +417,7 @@ impl DB {
         } else {
             db_fields_guard.version_set.get_prev_sequence_number()
         };
+        let memtable = self.memtable();
         let maybe_immutable_memtable = db_fields_guard.maybe_immutable_memtable.clone();
         let current_version = db_fields_guard.version_set.get_current_version();
 
@@ -430,7 +431,7 @@ impl DB {
                 crate::verif::sched_point("get.unlocked");
 
                 // Check the memtable first
-                if let Ok(maybe_value) = self.memtable().get(&internal_key) {
+                if let Ok(maybe_value) = memtable.get(&internal_key) {
                     match maybe_value {
                         Some(value) => return Ok(Some(value.clone())),
                         None => {
